@@ -274,7 +274,7 @@ def run(tier, seed, out):
     out.extra["arrays_judged"] = len(arecs)
     recs = recs + hrecs + arecs
     # large values (BigNum): judged by their own judge module
-    big = kit.run_tlc("C02_Big", "C02_Big", workers=4, coverage=False)
+    big = kit.run_tlc("C02_Big", f"C02_Big_{tier}", workers=8, coverage=False)
     kit.require_clean(big, "C02 large-value model (BigNum laws, generator)")
     out.add_tlc(big)
     bp = big.printed()
@@ -284,10 +284,10 @@ def run(tier, seed, out):
         raise kit.MachineryError("C02_Big printed no environments / cases")
     for i, c in enumerate(bcases):
         c["id"] = f"b{i}"
-    brecs = kit.drive("harness.c02", "drive_big", bcases, {"bigenvs": bigenvs[0]})
+    brecs = kit.drive("harness.c02", "drive_big", bcases, {"bigenvs": bigenvs[0]}, chunk=500)
     out.evaluations += 4 * len(brecs)
     out.extra["large_value_cases_judged"] = len(brecs)
-    bshards = kit.write_shards(brecs, wd / "trace_big", "c02big", 12000)
+    bshards = kit.write_shards(brecs, wd / "trace_big", "c02big", 3000)
     bverdicts, st, tr = kit.judge_shards("C02_BigJudge", "C02_BigJudge", bshards)
     out.states += st
     out.transitions += tr
